@@ -323,7 +323,9 @@ class Protocol:
             raise cast(Notification, message)
 
         if isinstance(message, Update) and Attribute.CODE.INTERNAL_DISCARD in message.data.attributes:
-            return _NOP
+            # not _NOP, which stands for "nothing was received": the hold timer was not restarted by such an
+            # UPDATE (RFC 4271 8.2.2, Event 27) and a peer sending nothing else was closed with 4/0
+            return _UPDATE
         else:
             return message
 
